@@ -15,6 +15,7 @@ RULES = {
     "M5": "filled list: add_filled_order_id(x) occurs exactly on paths where a transaction was emitted and the maker is not put back (neither pushed nor parked), once, with x = id of the popped order",
     "M6": "MatchResult::add_transaction agrees with the reference: remaining' = remaining.saturating_sub(t.quantity), is_complete' = (remaining' == 0), the transaction is appended; executed_quantity sums .quantity over the same list",
     "M7": "lifetime bound, static part: every fill lowers display+hidden of the re-queued value by exactly the fill (C05 conservation) and the level ledger balances (C01 L1 on match_order)",
+    "M8": "the order a match meets is the order as last amended: OrderQueue::push stores the very value it is given under its own id (one map insert of (order.id(), order), replacing any earlier entry) and one ticket; pop and remove hand out the entry of their own map removal; nobody else writes the two containers (the queue rules of C19/C08 read sequentially) - without this an amended or partially filled order would trade with a stale quantity",
     "M0": "coverage: iteration paths with and without a transaction exist; Transaction::new / add_transaction / add_filled_order_id are called only in match_order and its callees",
 }
 
@@ -33,6 +34,13 @@ def run(ctx, chk):
     L = LevelAnalysis(ctx)
     R = L.R
     db = ctx.db
+    # ---------------- M8 (queue stores what it is given; single-threaded reading: C02 is a sequential property)
+    from ..queue import QueueAnalysis
+    Q = QueueAnalysis(ctx)
+    Q.rule_push(chk, "M8", None)
+    Q.rule_pop(chk, "M8", "M8", "M8", seq=True)
+    Q.rule_remove_find(chk, "M8", seq=True)
+    Q.who_may(chk, "M8")
     # ---------------- M1
     ma = db.method("OrderType", "match_against")
     w = ctx.walker()
